@@ -1,6 +1,7 @@
 (* Request/response interface of the executable model: one S-expression in,
    one out.  Shared by the extracted runner and the in-Coq path. *)
-From InfluxQL Require Import Base.Prelude Base.Sexp Base.Oracles Lex.Token Ast.Ast Parse.ExprTree.
+From InfluxQL Require Import Base.Prelude Base.Sexp Base.Oracles Lex.Token Lex.Reader Lex.Scanner Ast.Ast
+  Val.Duration Parse.ExprTree Parse.Instr Parse.ParseExpr.
 
 Definition bad_request : sexp := L [A (-1)].
 
@@ -13,7 +14,65 @@ Definition token_table (orc : oracles) : sexp :=
   L (map (fun t => L [A (tok_code t); se_text (tok_string t); A (prec t); se_bool (is_operator t);
                       se_tok (lookup (o_ulower orc) (tok_string t))]) all_tokens).
 
-Definition dispatch (orc : oracles) (req : sexp) : sexp :=
+(* op 4: Scanner.Scan until EOF: (kind line char literal end-offset) per token, then flags *)
+Fixpoint scan_all_ext (ulower : Z -> Z) (fuel : nat) (total : Z) (r : reader) (acc : list sexp) : list sexp * reader :=
+  match fuel with
+  | O => (rev acc, set_oof r)
+  | S f =>
+      let '((tok, p, lit), r1) := scan ulower r in
+      let item := L [se_tok tok; A (p_line p); A (p_char p); se_text lit; A (consumed total r1)] in
+      match tok with
+      | EOF => (rev (item :: acc), r1)
+      | _ => scan_all_ext ulower f total r1 (item :: acc)
+      end
+  end.
+Definition scan_text (orc : oracles) (src : text) : sexp :=
+  let total := Z.of_nat (length (fold_cr src)) in
+  let '(items, r) := scan_all_ext (o_ulower orc) (S (length src)) total (new_reader src) [] in
+  L [L items; se_bool (r_bad r); se_bool (r_oof r); A (r_maxn r)].
+
+(* parameters: ((name (toktype value)) ...) *)
+Definition sd_params (s : sexp) : option (list (text * (token * text))) :=
+  sd_list (fun p => match p with
+                    | L [n; t; v] => n' <-o sd_text n ;; t' <-o sd_tok t ;; v' <-o sd_text v ;; Some (n', (t', v'))
+                    | _ => None end) s.
+
+Definition fuel_of (src : text) : nat := (4 * length src + 16)%nat.
+
+(* result of a parse: the value, plus the pushback maxima the hooks observe *)
+Definition se_parse {X} (f : X -> sexp) (r : res (X * pstate)) : sexp :=
+  match r with
+  | Ok (x, s) => L [A 0; f x; A (ps_maxn s); A (r_maxn (ps_rd s))]
+  | Err e => L (A 1 :: map A e)
+  | Crash site => L [A 2; A site]
+  | OutOfFuel => L [A 3]
+  end.
+
+(* op 0: per-case oracle table computed by the harness with the real Go libraries:
+   ((1 pattern ok) ...) for regexp.Compile, ((2 name (0)|(1 canonical)) ...) for time.LoadLocation *)
+Fixpoint with_table (orc : oracles) (tbl : list sexp) : oracles :=
+  match tbl with
+  | [] => orc
+  | L [A 1; k; v] :: tbl' =>
+      let o := with_table orc tbl' in
+      match sd_text k, sd_bool v with
+      | Some k', Some v' =>
+          mkOracles (o_ulower o) (o_parse_float o) (o_format_float o)
+            (fun s => if text_eqb s k' then v' else o_re_ok o s) (o_load_loc o)
+      | _, _ => o
+      end
+  | L [A 2; k; v] :: tbl' =>
+      let o := with_table orc tbl' in
+      match sd_text k, sd_opt sd_text v with
+      | Some k', Some v' =>
+          mkOracles (o_ulower o) (o_parse_float o) (o_format_float o) (o_re_ok o)
+            (fun s => if text_eqb s k' then v' else o_load_loc o s)
+      | _, _ => o
+      end
+  | _ :: tbl' => with_table orc tbl'
+  end.
+
+Definition dispatch1 (orc : oracles) (req : sexp) : sexp :=
   match req with
   | L (A op :: args) =>
       match Z.to_nat op, args with
@@ -28,9 +87,21 @@ Definition dispatch (orc : oracles) (req : sexp) : sexp :=
           | _, _ => bad_request
           end
       | 3%nat, [] => token_table orc
+      | 4%nat, [src] => match sd_text src with Some t => scan_text orc t | None => bad_request end
+      | 5%nat, [src; params] =>
+          match sd_text src, sd_params params with
+          | Some t, Some ps => se_parse se_expr (run (o_ulower orc) (parse_expr orc (fuel_of t)) (new_pstate t ps))
+          | _, _ => bad_request
+          end
       | _, _ => bad_request
       end
   | _ => bad_request
+  end.
+
+Definition dispatch (orc : oracles) (req : sexp) : sexp :=
+  match req with
+  | L [A 0; L tbl; inner] => dispatch1 (with_table orc tbl) inner
+  | _ => dispatch1 orc req
   end.
 
 (* in-Coq path: the list of (request, expected response) pairs on which the model disagrees *)
